@@ -82,6 +82,22 @@ def check(chk, facts):
             ok = head not in r and bool(ins)
             det = "every node id is expanded unless it was already seen: %s" % ok
         chk.ob(rule, "compute_tc_internal", ok, det, where=f.where(), fn=f.name)
+    f = get_fn(chk, facts, rule, TC + "add_ancestors")
+    if f is not None:
+        # a direct ancestor without a record of its own is skipped *alone*: the edges inherited from the other ancestors may not be
+        # gathered through an all-or-nothing collection (`collect::<Option<_>>()` / `collect::<Result<_, _>>()` in a function that
+        # returns nothing can only be followed by dropping everything when one lookup fails)
+        aon = []
+        for g in (f,) + tuple(facts.closures_of(f.name)):
+            for b, t in g.calls():
+                if callee(t).split("::")[-1] in ("collect", "from_iter", "try_collect", "collect_vec", "sum", "product"):
+                    ty = g.locals[t[3][0]]
+                    if ty.startswith(("std::option::Option<", "core::option::Option<", "std::result::Result<", "core::result::Result<")):
+                        aon.append(ty[:70])
+        chk.ob(rule, "add_ancestors:per-ancestor", not aon,
+               "add_ancestors inherits the edges of each recorded ancestor on its own (no all-or-nothing collection over the ancestors)" if not aon
+               else "add_ancestors gathers inherited edges through an all-or-nothing collection %s: one ancestor without a record drops the edges inherited from all the others" % aon,
+               where=f.where(), fn=f.name, sample={"all_or_nothing": aon})
     f = get_fn(chk, facts, rule, TC + "enforce_tc_and_dag")
     if f is not None:
         et = [(b, t) for b, t in f.calls() if callee(t).endswith("transitive_closure::enforce_tc")]
